@@ -38,7 +38,7 @@ MISSING = [-1]
 # scenarios
 # --------------------------------------------------------------------------------------------
 def scenarios(ctx):
-    """name, files{name: bytes}, argv (relative to the scenario dir), unit size B"""
+    """hand-written base scenarios: name, files{name: bytes}, argv (relative to the scenario dir), unit size B"""
     messy1 = b"local  a=1\nlocal b   =  {1,2,}\n"
     messy2 = b"local   x = 'a'\nprint( x )\nlocal  t = {x,x,  x}\n"
     clean = b"local c = 1\n"
@@ -55,7 +55,38 @@ def scenarios(ctx):
         big = b"local  zz=1\n" + big
         out.append(("abs", {"p/a.lua": messy2, "p/q/b.lua": messy1}, ["--write", "@ABS@/p/a.lua", "p/q"], 1))
         out.append(("big", {"big.lua": big, "a.lua": messy1}, ["--write", "big.lua", "a.lua"], 2048))
+    return [{"name": n, "files": f, "argv": a, "B": B} for n, f, a, B in out] + tlc_scenarios(ctx)
+
+
+def tlc_scenarios(ctx):
+    """FsAtomicScn.tla: scenario directories composed of target-file classes (hard link, symlink, read-only file,
+    read-only directory, empty, no trailing newline, several at once), with the expected fault-free outcome."""
+    res = vlib.tlc("FsAtomicScn", ctx.pick("FsAtomicScn_q", "FsAtomicScn_t"), workers=1, timeout=300)
+    ctx.add_tlc(res)
+    scs = [o for tg, o in res.json if tg == "SCN"]
+    if res.violated or len(scs) != res.distinct or not scs:
+        raise vlib.ToolError("FsAtomicScn: %d scenarios printed for %d states (%s)" % (len(scs), res.distinct, res.violated))
+    scs.sort(key=lambda o: (len(o["classes"]), o["classes"], o["argmode"]))
+    out = []
+    for o in scs:
+        files, links, hard, ro, expect = {}, {}, {}, set(), {}
+        for e in o["entries"]:
+            files[e["name"]] = e["content"].encode("utf-8")
+            expect[e["name"]] = e["expect"]
+            if e["kind"] == "symlink":
+                links[e["name"]] = e["to"]
+            elif e["kind"] == "hard":
+                hard[e["name"]] = e["to"]
+            if e["ro"]:
+                ro.add(e["name"])
+        out.append({"name": "+".join(o["classes"]) + "/" + o["argmode"], "files": files, "argv": o["argv"], "B": 1,
+                    "links": links, "hard": hard, "rofiles": ro, "rodirs": o["rodirs"], "expect": expect,
+                    "fails": o["fails"], "classes": o["classes"]})
+    ctx.note("target_class_scenarios_from_tlc", len(out))
     return out
+
+
+UNPRIV = ["setpriv", "--reuid=65534", "--regid=65534", "--clear-groups"] if os.geteuid() == 0 else []
 
 
 def to_units(b, B, table):
@@ -67,14 +98,35 @@ def to_units(b, B, table):
     return out
 
 
-def materialise(root, files):
+def materialise(root, files, scn=None):
+    """files{name: bytes}; scn (optional) names the entries that are symlinks / second hard links / read-only and the
+    read-only directories.  The tree is handed to the unprivileged user the tool runs as (permission bits matter)."""
+    scn = scn or {}
+    links, hard = scn.get("links", {}), scn.get("hard", {})
+    if os.path.isdir(root):
+        for d, _, _ in os.walk(root):
+            os.chmod(d, 0o755)
     shutil.rmtree(root, ignore_errors=True)
     os.makedirs(root)
     for n, c in files.items():
         p = os.path.join(root, n)
         os.makedirs(os.path.dirname(p), exist_ok=True)
+        if n in links or n in hard:
+            continue
         with open(p, "wb") as f:
             f.write(c)
+    for n, to in hard.items():
+        os.link(os.path.join(root, to), os.path.join(root, n))
+    for n, to in links.items():
+        os.symlink(os.path.relpath(os.path.join(root, to), os.path.dirname(os.path.join(root, n))), os.path.join(root, n))
+    for n in scn.get("rofiles", ()):
+        os.chmod(os.path.join(root, n), 0o444)
+    if UNPRIV:
+        for d, ds, fs in os.walk(root):
+            for x in [d] + [os.path.join(d, f) for f in fs]:
+                os.lchown(x, 65534, 65534)
+    for d in scn.get("rodirs", ()):
+        os.chmod(os.path.join(root, d), 0o555)
 
 
 def read_dir(root):
@@ -82,10 +134,24 @@ def read_dir(root):
     for d, _, fs in os.walk(root):
         for f in fs:
             p = os.path.join(d, f)
-            if os.path.islink(p) or not os.path.isfile(p):
+            if not os.path.isfile(p):      # follows symlinks: a link to a file reads as that file
                 out[os.path.relpath(p, root)] = None
             else:
                 out[os.path.relpath(p, root)] = open(p, "rb").read()
+    return out
+
+
+def read_meta(root):
+    """name -> (link target relative to root or "", inode identity) of every non-directory entry"""
+    out = {}
+    for d, _, fs in os.walk(root):
+        for f in fs:
+            p = os.path.join(d, f)
+            st = os.lstat(p)
+            link = ""
+            if os.path.islink(p):
+                link = os.path.relpath(os.path.normpath(os.path.join(d, os.readlink(p))), root)
+            out[os.path.relpath(p, root)] = (link, (st.st_dev, st.st_ino))
     return out
 
 
@@ -140,7 +206,7 @@ def run_traced(luafmt, root, argv, *, initial=(), inject=None, fsize=None, ignor
         cmd += ["prlimit", "--fsize=%d" % fsize, "--core=0"]
         if ignore_xfsz:
             cmd += ["env", "--ignore-signal=XFSZ"]
-    cmd += [luafmt] + [a.replace("@ABS@", root) for a in argv]
+    cmd += UNPRIV + [luafmt] + [a.replace("@ABS@", root) for a in argv]
     try:
         p = subprocess.run(cmd, cwd=root, stdin=subprocess.DEVNULL, stdout=subprocess.PIPE, stderr=subprocess.PIPE,
                            timeout=timeout)
@@ -216,12 +282,13 @@ def run_traced(luafmt, root, argv, *, initial=(), inject=None, fsize=None, ignor
                 continue
             if ret == "?":
                 continue
-            if failed and "ENOENT" not in tail and "EEXIST" not in tail:
+            if failed and "ENOENT" not in tail and "EEXIST" not in tail and "EACCES" not in tail:
                 raise vlib.ToolError("unmodelled open failure: " + line[:300])
             fl = set(flags.split("|"))
             ev = {"op": "open", "name": path, "fd": int(ret) if not failed else -1,
                   "creat": "O_CREAT" in fl, "trunc": "O_TRUNC" in fl, "excl": "O_EXCL" in fl,
-                  "wr": bool(fl & {"O_WRONLY", "O_RDWR"}), "append": "O_APPEND" in fl, "ok": not failed}
+                  "wr": bool(fl & {"O_WRONLY", "O_RDWR"}), "append": "O_APPEND" in fl, "ok": not failed,
+                  "dir": os.path.dirname(path)}
         elif name == "write":
             fd, path = fdarg(a[0])
             if rel(path) is None:
@@ -273,18 +340,19 @@ def run_traced(luafmt, root, argv, *, initial=(), inject=None, fsize=None, ignor
                 if ret == "?":
                     continue
                 raise vlib.ToolError("rename across the scenario boundary: " + line[:300])
-            if failed and "ENOENT" not in tail:
+            if failed and "ENOENT" not in tail and "EACCES" not in tail:
                 raise vlib.ToolError("unmodelled rename failure: " + line[:300])
-            ev = {"op": "rename", "from": src, "to": dst, "ok": not failed}
+            ev = {"op": "rename", "from": src, "to": dst, "ok": not failed,
+                  "fromdir": os.path.dirname(src), "todir": os.path.dirname(dst)}
         elif name in ("unlink", "unlinkat"):
             path = at("AT_FDCWD", qstr(a[0])) if name == "unlink" else at(a[0], qstr(a[1]))
             if path is None or ret == "?":
                 continue
             if name == "unlinkat" and "AT_REMOVEDIR" in a[2]:
                 continue
-            if failed and "ENOENT" not in tail:
+            if failed and "ENOENT" not in tail and "EACCES" not in tail:
                 raise vlib.ToolError("unmodelled unlink failure: " + line[:300])
-            ev = {"op": "unlink", "name": path, "ok": not failed}
+            ev = {"op": "unlink", "name": path, "ok": not failed, "dir": os.path.dirname(path)}
         elif name in UNMODELLED:
             if root.encode() in unhex(args):
                 raise vlib.ToolError("syscall not modelled by FsAtomic touches the scenario: " + line[:300])
@@ -304,6 +372,17 @@ def run_traced(luafmt, root, argv, *, initial=(), inject=None, fsize=None, ignor
 
 def read_dir_canon(root, t):
     return {t.canon.get(n, n): c for n, c in read_dir(root).items()}
+
+
+def observe_event(root, t, unit_contents):
+    """the directory as read back: content (through symlinks), link target, inode identity (hard-link structure)"""
+    meta = {t.canon.get(n, n): v for n, v in read_meta(root).items()}
+    names = sorted(unit_contents)
+    first = {}
+    for i, n in enumerate(names, start=1):
+        first.setdefault(meta[n][1], i)
+    return {"op": "observe", "files": [{"name": n, "content": unit_contents[n] if unit_contents[n] != MISSING else [],
+                                        "link": t.canon.get(meta[n][0], meta[n][0]), "ino": first[meta[n][1]]} for n in names]}
 
 
 # --------------------------------------------------------------------------------------------
@@ -395,10 +474,11 @@ def run(ctx):
     base_script = []
     info = {}
     # ---------------------------------------------------------------- 1. record fault-free runs
-    for ri, (sname, files, argv, B) in enumerate(scns, start=1):
-        root = os.path.join(ctx.work, "scn_" + sname)
+    for ri, scn in enumerate(scns, start=1):
+        sname, files, argv, B = scn["name"], scn["files"], scn["argv"], scn["B"]
+        root = os.path.join(ctx.work, "scn_%d" % ri)
         table = {}
-        materialise(root, files)
+        materialise(root, files, scn)
         fmt = {}
         for n, c in files.items():
             if n.endswith(".lua"):
@@ -407,18 +487,25 @@ def run(ctx):
                     raise vlib.ToolError("luafmt %s failed rc=%d: %s" % (n, p.returncode, p.stderr[-400:]))
                 fmt[n] = p.stdout
         t = run_traced(luafmt, root, argv, initial=set(files), B=B, table=table)
-        if t.rc != 0:
-            raise vlib.ToolError("fault-free luafmt --write failed rc=%s: %s" % (t.rc, t.stderr[-400:]))
+        if (t.rc != 0) != bool(scn.get("fails")):
+            raise vlib.ToolError("fault-free luafmt --write in scenario %s: rc=%s, expected %s: %s" % (
+                sname, t.rc, "failure" if scn.get("fails") else "success", t.stderr[-400:]))
         after = read_dir_canon(root, t)
         for n in fmt:
-            if after.get(n) != fmt[n]:
-                # the write mode and the stdout mode disagree: not C39's business, but the oracle needs it
-                raise vlib.ToolError("luafmt --write content differs from luafmt stdout for " + n)
-        reset = {"op": "reset", "run": ri, "files": [
-            {"name": n, "orig": to_units(c, B, table), "fmt": to_units(fmt.get(n, c), B, table),
-             "target": n in fmt} for n, c in sorted(files.items())]}
-        observe = {"op": "observe", "files": [{"name": n, "content": to_units(c, B, table)} for n, c in sorted(after.items())]}
-        info[ri] = {"name": sname, "files": files, "fmt": fmt, "argv": argv, "B": B, "table": table, "root": root,
+            want = fmt[n] if scn.get("expect", {}).get(n, "fmt") == "fmt" else files[n]
+            if after.get(n) != want:
+                # the write mode and the stdout mode disagree (or the scenario model of FsAtomicScn is wrong about what a
+                # fault-free run reaches): not C39's business, but the oracle needs it
+                raise vlib.ToolError("scenario %s: content of %s after the fault-free run is not the expected one (%s)" % (
+                    sname, n, scn.get("expect", {}).get(n, "fmt")))
+        order = sorted(files)
+        links, hard = scn.get("links", {}), scn.get("hard", {})
+        reset = {"op": "reset", "run": ri, "rodirs": list(scn.get("rodirs", [])), "files": [
+            {"name": n, "orig": to_units(files[n], B, table), "fmt": to_units(fmt.get(n, files[n]), B, table),
+             "target": n in fmt, "ino": order.index(hard.get(n, n)) + 1, "link": links.get(n, ""),
+             "ro": hard.get(n, n) in scn.get("rofiles", ())} for n in order]}
+        observe = observe_event(root, t, {n: (MISSING if c is None else to_units(c, B, table)) for n, c in after.items()})
+        info[ri] = {"name": sname, "files": files, "fmt": fmt, "argv": argv, "B": B, "table": table, "root": root, "scn": scn,
                     "reset": reset, "events": t.events, "points": t.points, "first": len(base_script) + 1}
         base_script += [reset] + t.events + [{"op": "exit"}, observe]
         ctx.sample({"scenario": sname, "argv": argv, "recorded_syscalls": [
@@ -467,10 +554,23 @@ def run(ctx):
     plan = []
     skipped_unreal = 0
     by_write = {}
+    # quick tier, scenarios of FsAtomicScn: every class has a scenario of its own with a kill before every syscall and the
+    # extreme partial writes; the scenario that combines all classes only gets the kills at its writes and renames and
+    # the longest partial write (every fault point is still judged by the model: `not_injected_bad` below)
+    def multi(ri):
+        return ctx.quick and len(info[ri]["scn"].get("classes", ())) > 2
+
+    def single(ri):
+        return ctx.quick and 1 <= len(info[ri]["scn"].get("classes", ())) <= 2
+
     for c in cases:
         fl = c["fault"]
         if fl["kind"] == "kill":
+            if multi(c["run"]) and info[c["run"]]["events"][fl["at"] - info[c["run"]]["first"] - 1]["op"] not in ("write", "rename"):
+                continue
             plan.append(c)
+        elif multi(c["run"]) and fl["kind"] == "wfail":
+            continue
         else:
             by_write.setdefault((c["run"], fl["at"], fl["kind"]), []).append(c)
     for (ri, at_, kind), cs in sorted(by_write.items()):
@@ -487,7 +587,9 @@ def run(ctx):
                     continue
             real.append(c)
         real.sort(key=lambda c: c["fault"]["k"])
-        if ctx.quick or inf["B"] > 1:
+        if multi(ri) or single(ri):
+            real = real[-1:] if kind == "killw" else real[:1]
+        elif ctx.quick or inf["B"] > 1:
             keep = {0, len(real) - 1, len(real) // 2} | set(rnd.sample(range(len(real)), min(3, len(real))))
             real = [c for i, c in enumerate(real) if i in keep]
         plan += real
@@ -521,7 +623,7 @@ def run(ctx):
                 if fl["k"] == 0:
                     variants.append(("enospc", dict(inject="write:error=ENOSPC:when=%d" % sidx)))
         for how, kw in variants:
-            materialise(inf["root"], inf["files"])
+            materialise(inf["root"], inf["files"], inf["scn"])
             t = run_traced(luafmt, inf["root"], inf["argv"], initial=set(inf["files"]), B=B, table=inf["table"], **kw)
             observed = read_dir_canon(inf["root"], t)
             key = (inf["name"], how, li, fl["k"])
@@ -567,8 +669,7 @@ def run(ctx):
             nrun += 1
             reset = dict(inf["reset"])
             reset["run"] = nrun
-            fault_script += [reset] + t.events + [{"op": "exit"}, {"op": "observe", "files": [
-                {"name": n, "content": u} for n, u in sorted(obs_units.items())]}]
+            fault_script += [reset] + t.events + [{"op": "exit"}, observe_event(inf["root"], t, obs_units)]
             info[nrun] = dict(inf, fault=detail, events=t.events, first=None)
     ctx.note("faults_injected_for_real", nrun - len(scns))
     ctx.note("real_states_matching_model_prediction", explained)
